@@ -21,7 +21,7 @@ from vivarium.core.process import ParallelProcess, Process
 from vivarium.library.dict_utils import (
     deep_compare, deep_copy_internal, deep_merge, deep_merge_check,
     MULTI_UPDATE_KEY)
-from vivarium.library.topology import dict_to_paths
+from vivarium.library.topology import dict_to_paths, get_in
 from vivarium.core.types import Processes, Topology, State, Steps, Flow
 from vivarium.core.serialize import QuantitySerializer
 
@@ -1338,10 +1338,16 @@ class Store:
         step_paths = dict_to_paths(root, insertion.get('steps', {}))
         step_updates.extend(step_paths)
 
+        # one entry per process or step: a nested dictionary reported as
+        # a whole would replace what a compartment that already exists
+        # has published
         topology_paths = [
-            (root + (key,), topology)
-            for key, topology in insertion['topology'].items()]
-        topology_updates.extend(topology_paths)
+            (entity_path, get_in(
+                insertion['topology'], entity_path[len(root):]))
+            for entity_path, _ in process_paths + step_paths]
+        topology_updates.extend(
+            (entity_path, ports) for entity_path, ports in topology_paths
+            if ports is not None)
 
         # one entry per step, also for steps in nested compartments
         flow_paths = dict_to_paths(root, insertion.get('flow') or {})
